@@ -21,7 +21,7 @@ type Ctx struct {
 	Seed   int64
 	Rng    *rand.Rand
 	OutDir string
-	Only   int // replay: only this case id is emitted (-1 = all)
+	Only   int  // replay: only this case id is emitted (-1 = all)
 	Fine   bool // fine-grained phase: the library is compiled against harness/vsync (lock operations are yield points, adversarial pools)
 	Input  json.RawMessage
 
